@@ -1,10 +1,10 @@
 #!/bin/bash
 # usage: eval_mutants.sh <prop> <module rel dir> <check props...>  -- for every /tmp/wt_<prop>/_mutants/<n>
-P=$1; MOD=$2; shift 2
+P=$1; MOD=$2; SUITE=$3; shift 3
 for d in /tmp/wt_$P/_mutants/*/; do
   n=$(basename $d)
   [ -f $d/patch.diff ] || continue
   echo "######## $P-$n"
-  /verif/tools/confirm_mutant.sh /tmp/wt_$P $d $MOD 'Test' 2>&1 | tail -2
+  /verif/tools/confirm_mutant.sh /tmp/wt_$P $d $MOD 'Test' $SUITE 2>&1 | tail -2
   /verif/tools/try_mutant.sh $d/patch.diff quick "$@" 2>&1
 done
